@@ -98,6 +98,12 @@ class Slim(probe.Contract):
         ranks = list(res.ranks)
         tags = ['cyclic' if cyc else 'open', 'equal_bond_ranks' if len(set(ranks[1:-1])) <= 1 else 'unequal_bond_ranks', 'equal_cells' if len(set(ss)) == 1 else 'unequal_cells']
         ok = got.shape == G.shape and float(np.max(np.abs(got - G))) <= 1e-10 * sc
+        spread_ok = v['threshold'] == 0 or all(min(float(r[4]) for r in bond) > 1e-9 * max(float(r[4]) for r in bond) for bond in two if len(bond))
+        if ok and spread_ok:  # (with a non-zero relative cut, rates more than 1e9 apart within one bond make that cut effective)
+            # off-diagonal entries are sums of non-negative rates (no cancellation): they are reproduced entry by entry to relative
+            # accuracy, however small the rates of one bond or cell are compared with the rest of the network
+            offm = ~np.eye(G.shape[0], dtype=bool)
+            ok = bool(np.all(np.abs(got - G)[offm] <= 1e-8 * np.abs(G)[offm] + 1e-13 * sc))
         c.check(self.api, 'equals_master_equation_generator', ok, tags, {'state_space': ss, 'ranks': ranks, 'max_err': float(np.max(np.abs(got - G))) if got.shape == G.shape else None}, prop=P)
         if got.shape == G.shape:
             c.check(self.api, 'column_sums_vanish', float(np.max(np.abs(got.sum(axis=0)))) <= 1e-10 * sc, tags, {'state_space': ss}, prop=P)
